@@ -12,7 +12,7 @@ Separate Extraction
   FixBuilders.ch_bytes
   FixBuilders.curly_attr_change FixBuilders.curly_child_fix FixBuilders.missing_curly_fix FixBuilders.curly_attr_fix_repaired
   FixBuilders.escape FixBuilders.entities_reported
-  FixBuilders.boolean_change FixBuilders.spread_change FixBuilders.spread_change_repaired
+  FixBuilders.boolean_change FixBuilders.boolean_change_repaired FixBuilders.spread_change FixBuilders.spread_change_repaired
   FixBuilders.rename_change FixBuilders.process_change FixBuilders.node_global_change
   FixBuilders.vms_all_changes FixBuilders.vms_spec_change
   FixBuilders.jsx_attr_stringb FixBuilders.jsx_textb FixBuilders.identb FixBuilders.import_line_ok FixBuilders.braces_balanced.
